@@ -427,6 +427,10 @@ fn mk_adapter(work: &std::path::Path, rng: &mut Rng) -> Arc<glue::GlueAdapter> {
 
 /// a real `Peer::accept` behind a real Hand / Shake; the raw socket of the remote
 fn mk_peer(remote_ver: u32, ad: Arc<glue::GlueAdapter>, nonce: u64) -> Option<(Peer, TcpStream)> {
+	mk_peer_port(remote_ver, ad, nonce, 3414)
+}
+
+fn mk_peer_port(remote_ver: u32, ad: Arc<glue::GlueAdapter>, nonce: u64, port: u16) -> Option<(Peer, TcpStream)> {
 	let g = Hash::from_vec(&[7u8; 32]);
 	let listener = TcpListener::bind("127.0.0.1:0").ok()?;
 	let laddr = listener.local_addr().ok()?;
@@ -444,7 +448,7 @@ fn mk_peer(remote_ver: u32, ad: Arc<glue::GlueAdapter>, nonce: u64) -> Option<(P
 		nonce,
 		genesis: g,
 		total_difficulty: Difficulty::from_num(5),
-		sender_addr: PeerAddr("127.0.0.1:3414".parse().unwrap()),
+		sender_addr: PeerAddr(format!("127.0.0.1:{}", port).parse().unwrap()),
 		receiver_addr: PeerAddr(laddr),
 		user_agent: "verif/psend".to_string(),
 	};
@@ -978,6 +982,266 @@ pub fn write_timeouts(cx: &mut Ctx) {
 				cx.stat(&format!("wtime: {} stalled={}", r.dir, r.stalled));
 				cx.out.line(&format!("codec wtime {} {}", r.dir, if r.stalled { 1 } else { 0 }), &r.res);
 			}
+		}
+	}
+}
+
+
+// ---------------------------------------------------------------------------------------------------
+// increment 3: above one connection - Peers::broadcast over 0..N real Peers, ban / unban on a real PeerStore,
+// Peer::stop / wait racing senders, stop with a frame in flight, is_connected after the reader gave up
+
+/// one whole frame from a raw socket within `ms` (None: nothing / closed)
+fn read_one(s: &mut TcpStream, ms: u64) -> Option<Vec<u8>> {
+	let _ = s.set_read_timeout(Some(Duration::from_millis(ms)));
+	let mut head = [0u8; 11];
+	s.read_exact(&mut head).ok()?;
+	let mut l = [0u8; 8];
+	l.copy_from_slice(&head[3..11]);
+	let mut body = vec![0u8; (u64::from_be_bytes(l) as usize).min(1 << 20)];
+	let _ = s.set_read_timeout(Some(Duration::from_secs(30)));
+	s.read_exact(&mut body).ok()?;
+	let mut v = head.to_vec();
+	v.extend_from_slice(&body);
+	Some(v)
+}
+
+fn wait_log(ad: &glue::GlueAdapter, n: usize) {
+	let deadline = Instant::now() + Duration::from_secs(60);
+	while ad.log.lock().unwrap().len() < n && Instant::now() < deadline {
+		std::thread::sleep(Duration::from_millis(5));
+	}
+}
+
+pub fn peers_level(cx: &mut Ctx, work: &std::path::Path) {
+	use grin_p2p::store::PeerStore;
+	use grin_p2p::Peers;
+	let ver = 1000u32;
+	// ---- broadcast over n connected peers; per peer: s = gets it, x = showed it to us before (suppressed), f = its connection is dead
+	let plans: Vec<&str> = if cx.thorough { vec!["", "s", "x", "f", "sx", "sxf", "fsxs", "xxss", "ffs", "sssss"] } else { vec!["", "s", "sxf", "fsxs", "xx"] };
+	while cx.pool.len() < plans.len() {
+		let h = gen_header(&mut cx.rng);
+		cx.pool.push(h);
+	}
+	for (pi, plan) in plans.iter().enumerate() {
+		let dir = work.join(format!("peers-{}", pi));
+		let _ = std::fs::create_dir_all(&dir);
+		let ad = mk_adapter(&dir, &mut cx.rng);
+		let store = match PeerStore::new(dir.to_str().unwrap()) {
+			Ok(s) => s,
+			Err(_) => {
+				cx.fails += 1;
+				cx.out.raw("#ORACLE-FAIL C19 peers: PeerStore::new failed");
+				continue;
+			}
+		};
+		let peers = Peers::new(store, ad.clone(), P2PConfig::default());
+		let header = cx.pool[pi].clone();
+		let mut socks: Vec<TcpStream> = vec![];
+		let mut ok = true;
+		for (i, c) in plan.chars().enumerate() {
+			match mk_peer_port(ver, ad.clone(), cx.rng.next(), 4000 + i as u16) {
+				Some((p, mut sock)) => {
+					let p = Arc::new(p);
+					if c == 'x' {
+						// this peer is the source: it shows us the header first
+						let before = ad.log.lock().unwrap().len();
+						let _ = sock.write_all(&frame_bytes(Type::Header, &header, ver));
+						wait_log(&ad, before + 1);
+					}
+					if c == 'f' {
+						// a dead connection: both threads gone, the send channel disconnected
+						p.stop();
+						p.wait();
+					}
+					if peers.add_connected(p).is_err() {
+						ok = false;
+					}
+					socks.push(sock);
+				}
+				None => ok = false,
+			}
+		}
+		if !ok {
+			cx.fails += 1;
+			cx.out.raw("#ORACLE-FAIL C19 peers: the peers could not be set up");
+			continue;
+		}
+		let before = peers.iter().count();
+		peers.broadcast_header(&header);
+		let want = frame_bytes(Type::Header, &header, ver);
+		let got: String = plan
+			.chars()
+			.zip(socks.iter_mut())
+			.map(|(c, s)| match read_one(s, if c == 's' { 30_000 } else { 400 }) {
+				Some(f) if f == want => '1',
+				Some(_) => '?',
+				None => '0',
+			})
+			.collect();
+		let after = peers.iter().count();
+		cx.stat(&format!("peers: broadcast over {} connected peers", plan.len()));
+		cx.out.line(&format!("codec bcast {}", if plan.is_empty() { "-" } else { plan }), &format!("before:{};received:{};after:{}", before, if got.is_empty() { "-".to_string() } else { got }, after));
+		peers.stop();
+	}
+
+	// ---- ban / unban / is_banned on a real PeerStore, one connected peer, one address only in the store, one unknown
+	{
+		let dir = work.join("peers-ban");
+		let _ = std::fs::create_dir_all(&dir);
+		let ad = mk_adapter(&dir, &mut cx.rng);
+		if let (Ok(store), Some((p, mut sock))) = (PeerStore::new(dir.to_str().unwrap()), mk_peer_port(ver, ad.clone(), cx.rng.next(), 4100)) {
+			let peers = Peers::new(store, ad.clone(), P2PConfig::default());
+			let p = Arc::new(p);
+			let a_conn = p.info.addr;
+			let _ = peers.add_connected(p.clone());
+			let a_store = PeerAddr("10.1.2.3:3414".parse().unwrap());
+			let _ = peers.add_banned(a_store, ReasonForBan::BadHandshake);
+			let _ = peers.unban_peer(a_store);
+			let a_unknown = PeerAddr("10.9.9.9:3414".parse().unwrap());
+			let r = |x: Result<(), grin_p2p::Error>| match x {
+				Ok(()) => "ok".to_string(),
+				Err(grin_p2p::Error::PeerNotFound) => "PeerNotFound".to_string(),
+				Err(grin_p2p::Error::PeerNotBanned) => "PeerNotBanned".to_string(),
+				Err(grin_p2p::Error::Store(_)) => "StoreNotFound".to_string(),
+				Err(e) => err_name(&e),
+			};
+			let b = |x: bool| if x { "1" } else { "0" };
+			let mut res: Vec<String> = vec![];
+			// the connected peer
+			res.push(b(peers.is_banned(a_conn)).into());
+			res.push(r(peers.unban_peer(a_conn)));
+			res.push(r(peers.ban_peer(a_conn, ReasonForBan::BadBlock)));
+			let reason = read_one(&mut sock, 30_000);
+			res.push(format!("frame:{}", reason.map(|f| f[2].to_string()).unwrap_or_else(|| "-".into())));
+			res.push(b(peers.is_banned(a_conn)).into());
+			res.push(format!("map:{}", peers.iter().count()));
+			res.push(format!("peerbanned:{}", b(p.is_banned())));
+			res.push(r(peers.unban_peer(a_conn)));
+			res.push(b(peers.is_banned(a_conn)).into());
+			res.push(r(peers.unban_peer(a_conn)));
+			// the address we only know from the store: banned in the store although the call reports PeerNotFound
+			res.push(r(peers.ban_peer(a_store, ReasonForBan::ManualBan)));
+			res.push(b(peers.is_banned(a_store)).into());
+			// an address nobody knows
+			res.push(r(peers.ban_peer(a_unknown, ReasonForBan::ManualBan)));
+			res.push(b(peers.is_banned(a_unknown)).into());
+			res.push(r(peers.unban_peer(a_unknown)));
+			cx.stat("peers: ban / unban sequence on a real PeerStore");
+			cx.out.line("codec pstore seq", &res.join(";"));
+			peers.stop();
+		} else {
+			cx.fails += 1;
+			cx.out.raw("#ORACLE-FAIL C19 peers: ban sequence could not be set up");
+		}
+	}
+
+	// ---- Peer::stop / wait racing senders: everything returns, nobody hangs or panics
+	{
+		let dir = work.join("peers-race");
+		let _ = std::fs::create_dir_all(&dir);
+		let ad = mk_adapter(&dir, &mut cx.rng);
+		if let Some((p, sock)) = mk_peer_port(ver, ad, cx.rng.next(), 4200) {
+			let p = Arc::new(p);
+			let k = 6;
+			let barrier = Arc::new(Barrier::new(k + 1));
+			let hs: Vec<_> = (0..k)
+				.map(|i| {
+					let (p, b) = (p.clone(), barrier.clone());
+					std::thread::spawn(move || {
+						b.wait();
+						let (mut okc, mut sendc, mut other) = (0u32, 0u32, 0u32);
+						for j in 0..400u64 {
+							match p.send_ping(Difficulty::from_num(1 + i as u64), j) {
+								Ok(()) => okc += 1,
+								Err(grin_p2p::Error::Send(_)) => sendc += 1,
+								Err(_) => other += 1,
+							}
+							if j % 16 == 0 {
+								std::thread::yield_now();
+							}
+						}
+						(okc, sendc, other)
+					})
+				})
+				.collect();
+			let (tx, rx) = std::sync::mpsc::channel();
+			let p2 = p.clone();
+			let b2 = barrier.clone();
+			std::thread::spawn(move || {
+				b2.wait();
+				std::thread::sleep(Duration::from_millis(20));
+				p2.stop();
+				p2.wait();
+				let _ = tx.send(());
+			});
+			// watchdog (generous, one-sided): stop + wait and all senders must come back
+			let stopped = rx.recv_timeout(Duration::from_secs(90)).is_ok();
+			let mut other = 0;
+			let mut joined = true;
+			for h in hs {
+				match h.join() {
+					Ok((_, _, o)) => other += o,
+					Err(_) => joined = false,
+				}
+			}
+			let verdict = if stopped && joined && other == 0 { "finished".to_string() } else { format!("stuck:stop-returned:{}:senders-ok:{}:unexpected-errors:{}", stopped, joined, other) };
+			if verdict != "finished" {
+				cx.fails += 1;
+				cx.out.raw(&format!("#ORACLE-FAIL C19 Peer::stop / wait racing 6 senders: {}", verdict));
+			}
+			cx.stat("peers: stop / wait racing 6 senders");
+			cx.out.line("codec stoprace 6", &verdict);
+			drop(sock);
+		}
+	}
+
+	// ---- stop with a frame in flight; is_connected after the reader gave up
+	{
+		let dir = work.join("peers-stopmid");
+		let _ = std::fs::create_dir_all(&dir);
+		let ad = mk_adapter(&dir, &mut cx.rng);
+		if let Some((p, mut sock)) = mk_peer_port(ver, ad.clone(), cx.rng.next(), 4300) {
+			let ping = |h: u64| frame_bytes(Type::Ping, &Ping { total_difficulty: Difficulty::from_num(5), height: h }, ver);
+			let _ = sock.write_all(&ping(1));
+			let first = read_one(&mut sock, 30_000).is_some();
+			let f2 = ping(2);
+			let _ = sock.write_all(&f2[..20]);
+			// the reader is inside the body read of the second Ping (it went back to reading right after the Pong)
+			std::thread::sleep(Duration::from_millis(1_500));
+			let before = ad.log.lock().unwrap().len();
+			p.stop();
+			let mut rest = f2[20..].to_vec();
+			rest.extend_from_slice(&ping(3));
+			let _ = sock.write_all(&rest);
+			p.wait();
+			let seen: Vec<String> = ad.log.lock().unwrap()[before..].iter().filter(|l| l.starts_with("pdiff")).cloned().collect();
+			let inflight = seen.iter().filter(|l| l.ends_with(":2")).count();
+			let after = seen.iter().filter(|l| l.ends_with(":3")).count();
+			if !first || inflight == 0 {
+				cx.stat("peers: stop mid-frame - the reader had not reached the frame (skipped)");
+			} else {
+				cx.stat("peers: stop with a frame in flight");
+				cx.out.line("codec stopmid", &format!("inflight:{};after:{};connected:{}", inflight, after, if p.is_connected() { 1 } else { 0 }));
+			}
+		}
+		if let Some((p, mut sock)) = mk_peer_port(ver, ad, cx.rng.next(), 4301) {
+			// a frame with the wrong magic: the reader refuses it and closes; nobody told the Peer
+			let mut bad = frame_bytes(Type::Ping, &Ping { total_difficulty: Difficulty::from_num(5), height: 9 }, ver);
+			bad[0] ^= 0x55;
+			let _ = sock.write_all(&bad);
+			let _ = sock.set_read_timeout(Some(Duration::from_secs(30)));
+			let mut b = [0u8; 1];
+			let closed = matches!(sock.read(&mut b), Ok(0) | Err(_));
+			// (the writer thread lives on until `stop`: no `wait` here)
+			let send_after = match p.send_ping(Difficulty::from_num(1), 1) {
+				Ok(()) => "ok",
+				Err(grin_p2p::Error::Send(_)) => "Send",
+				Err(_) => "other",
+			};
+			cx.stat("peers: is_connected after the reader closed the connection");
+			cx.out.line("codec deadconn", &format!("closed:{};is_connected:{};send:{}", if closed { 1 } else { 0 }, if p.is_connected() { 1 } else { 0 }, send_after));
+			p.stop();
 		}
 	}
 }
